@@ -44,14 +44,18 @@ enum Place {
     DeriveThenFilter,
     FilterThenDerive,
     AfterTake,
+    /// a frame-less aggregation upstream of the (bounded) window, at the same nesting level
+    AfterPlainAggregate,
+    /// … and downstream of it
+    BeforePlainAggregate,
 }
 
 /// One window program. Base relation: `from t | select {a, b}` (closed) or `from t` (open).
 fn gen(c: &mut Ctx, tier: Tier) -> Option<Program> {
     let open = tier == Tier::Thorough && c.flag("open-source");
     let places: &[Place] = match tier {
-        Tier::Quick => &[Place::Derive, Place::Filter],
-        Tier::Thorough => &[Place::Derive, Place::Filter, Place::Select, Place::SortKey, Place::DeriveThenFilter, Place::FilterThenDerive, Place::AfterTake],
+        Tier::Quick => &[Place::Derive, Place::Filter, Place::AfterPlainAggregate],
+        Tier::Thorough => &[Place::Derive, Place::Filter, Place::Select, Place::SortKey, Place::DeriveThenFilter, Place::FilterThenDerive, Place::AfterTake, Place::AfterPlainAggregate, Place::BeforePlainAggregate],
     };
     let place = *c.pick(places, "placement");
     let partitioned = c.flag("partition-by-a");
@@ -79,18 +83,26 @@ fn gen(c: &mut Ctx, tier: Tier) -> Option<Program> {
     let win = E::Win(f, arg);
     let test = E::bin(Op::Gt, win.clone(), E::Int(1));
     let wstep = match place {
-        Place::Derive | Place::DeriveThenFilter | Place::FilterThenDerive | Place::AfterTake => Step::Derive(vec![Item { alias: Some("w".into()), e: win }]),
+        Place::Derive | Place::DeriveThenFilter | Place::FilterThenDerive | Place::AfterTake | Place::AfterPlainAggregate | Place::BeforePlainAggregate => Step::Derive(vec![Item { alias: Some("w".into()), e: win }]),
         Place::Select => Step::Select(vec![Item { alias: None, e: E::Col(cb) }, Item { alias: Some("w".into()), e: win }]),
         Place::Filter => Step::Filter(test),
         Place::SortKey => Step::Sort(vec![(false, win)]),
     };
     let mut inner: Vec<Step> = vec![];
+    let plain = |name: &str| Step::Derive(vec![Item { alias: Some(name.into()), e: E::Win(WinFn::Max, Some(cb)) }, Item { alias: Some(format!("{name}c")), e: E::Win(WinFn::Count, Some(cb)) }]);
+    if place == Place::AfterPlainAggregate {
+        // no window, no sort yet: the value over the whole partition
+        inner.push(plain("p"));
+    }
     if let Some(s) = sort {
         inner.push(Step::Sort(s));
     }
     match fr {
         Some(kind) => inner.push(Step::Window { kind, inner: vec![wstep] }),
         None => inner.push(wstep),
+    }
+    if place == Place::BeforePlainAggregate {
+        inner.push(plain("p"));
     }
     let mut steps: Vec<Step> = vec![];
     if !open {
@@ -173,7 +185,7 @@ pub fn run(tier: Tier) -> i32 {
     run.states = cases.len() as u64;
     run.transitions = st.points;
     run.set("bounds", json!({"partition": ["none","a"], "sort": ["none","b","-b","{a,-b}"], "frames": frames().iter().map(|f| format!("{f:?}")).collect::<Vec<_>>(),
-        "functions": FNS.iter().map(|f| f.name()).collect::<Vec<_>>(), "placements": tier.pick(2, 7), "sources": tier.pick("closed", "closed+open"), "instances": pool.len(), "engine_executions": st.executions}));
+        "functions": FNS.iter().map(|f| f.name()).collect::<Vec<_>>(), "placements": tier.pick(3, 9), "sources": tier.pick("closed", "closed+open"), "instances": pool.len(), "engine_executions": st.executions}));
     run.set("rule", json!("states = distinct window programs; validated = (program, instance, target) triples executed on SQLite and compared (multiset, or admissible order) with the reference window evaluation; positional functions / rows frames are decided only where the order is total in every partition"));
     run.assume("SQLite window functions are trusted; range frames decided only for a single non-null numeric key");
     run.finish()
